@@ -38,6 +38,11 @@ CHECKS['C05'] = dict(engine='linenworld-twins', design='DESIGN.md section 6, C05
     note='The plain twin (real flax code without the transform) is the reference; if both twins are wrong alike the check is silent. Under nn.jit RNG-derived values are only checked for determinism (what the property promises). Two open known findings (map_variables(init=True) runs the body twice; cond/switch branches share RNG counters) are listed in known_findings.json and avoided by the generator in most histories. XLA compilation bounds throughput (~600 histories per quick run).',
     technique='deterministic simulation: seeded call histories over trace caches, plain-vs-lifted twin programs, exception injection inside traced bodies')
 
+CHECKS['C17'] = dict(engine='nnxworld', design='DESIGN.md section 6, C17',
+    text='Seeded histories of gradient steps on nnx.Optimizer(wrt=filter), nnx.TrainState and flax TrainState over model graphs grown by the heap ops (sharing included) and an optax menu (sgd, momentum, adam, adamw, chain(clip, sgd), schedule, MultiSteps), eagerly and under jit alternating on one object, interleaved with edits of Variables outside wrt; after every step parameters, optimizer state and step are compared with the hand-written optax loop on copies and everything outside wrt with the mirror (canonical form + identity). Metrics (Average, Accuracy, Welford, MultiMetric): a generated value stream cut into batches at generated points with resets, eagerly or under nnx.jit, against float64 NumPy statistics and against another partition of the same stream.',
+    note='These are deterministic folds; the simulator contributes only the history dimension (step sequences, batch partitions, resets, jit/eager alternation on one object). optax is the trusted base. rtol 1e-5 where the arithmetic under test is inexact (Adam, Welford, jit-vs-eager), bytes otherwise. No exception faults: the property says nothing about a failed update.',
+    technique='deterministic simulation: seeded step / batch-partition histories vs hand-written optax loop and NumPy statistics')
+
 NA = {
   'C02': 'variable tree mirrors module tree: relation between stateless init/apply/lazy_init/bind results on the same arguments; ' + PURE,
   'C06': 'lifted scan/vmap = loop/stack: configuration-space equivalence of a pure function; ' + PURE,
@@ -53,15 +58,15 @@ NA = {
 
 # claimed in DESIGN.md, check not built yet (moved to CHECKS as each engine lands)
 _P = 'planned as a claimed check in DESIGN.md section 6 but its engine is not built yet in this commit; not claimed until it runs'
-PENDING = {p: _P for p in ['C04', 'C17', 'C18']}
+PENDING = {p: _P for p in ['C04', 'C18']}
 
 ENGINES = [
-  dict(name='kernel', path='sim/kernel.py', serves_properties=['C01', 'C03', 'C05', 'C09', 'C11', 'C15', 'C20'], kind_free_text='seed -> JSON plan -> event-log digest; worker processes; ddmin shrinker; replay; evidence'),
+  dict(name='kernel', path='sim/kernel.py', serves_properties=['C01', 'C03', 'C05', 'C09', 'C11', 'C15', 'C17', 'C20'], kind_free_text='seed -> JSON plan -> event-log digest; worker processes; ddmin shrinker; replay; evidence'),
   dict(name='sched', path='sim/sched.py', serves_properties=['C11', 'C20'], kind_free_text='baton-passing deterministic thread scheduler; stand-ins for threading and concurrent.futures.thread'),
   dict(name='disk', path='sim/disk.py', serves_properties=['C11'], kind_free_text='in-memory disk with crash / torn-write / I/O-error injection; stand-ins for os, shutil, open, glob and tensorflow.io.gfile'),
   dict(name='fsworld', path='sim/props/c11.py', serves_properties=['C11'], kind_free_text='checkpoint directory histories with crashes, restarts, retries, sweeps and async saves against a retention-policy model'),
   dict(name='valueworld', path='sim/props/c15.py', serves_properties=['C15'], kind_free_text='FrozenDict / struct dataclass call histories with foreign mutations and jit retrace histories'),
-  dict(name='nnxworld', path='sim/nnxworld.py', serves_properties=['C03'], kind_free_text='heap of NNX object graphs + pure-Python mirror, canonical form, filters, build ops'),
+  dict(name='nnxworld', path='sim/nnxworld.py', serves_properties=['C03', 'C17'], kind_free_text='heap of NNX object graphs + pure-Python mirror, canonical form, filters, build ops'),
   dict(name='programs', path='sim/programs.py', serves_properties=['C01', 'C05', 'C09'], kind_free_text='Linen program specs compiled to real nn.Module classes; callback-event fault controller; key recorder'),
   dict(name='linenworld', path='sim/props/c01.py', serves_properties=['C01'], kind_free_text='Linen call histories with fault injection against snapshot/memo/filter models'),
   dict(name='pipeworld', path='sim/props/c20.py', serves_properties=['C20'], kind_free_text='source -> PrefetchIterator / prefetch_to_device -> consumer under the thread scheduler with source fault injection'),
